@@ -13,6 +13,7 @@ CONSTANTS
   EnumRankSet = {2}
   SimpleStyles = {"unit", "tuple"}
   MaxLawValues = 8
+  PairMode = FALSE
   Vals = {0, 1}
 CONSTRAINT CorpusOnly
 CHECK_DEADLOCK FALSE
